@@ -49,6 +49,7 @@ ASSUME Len(Coll2) = 1 /\ SSWU("G2", Coll2[1][2]) = SSWU("G2", Coll2[1][1]) /\ Co
 Exceptional(g) == LET w == KMul(g, KNeg(g, KOne(g)), KInv0(g, SwuZ(g))) IN
                   IF KIsSquare(g, w) THEN <<KSqrt(g, w)>> ELSE <<>>
 
+
 Ops(g, c) ==
   << [op |-> "swu", g |-> g, t |-> c[2], cls |-> "colliding-partner"],
      [op |-> "map2", g |-> g, u0 |-> c[1], u1 |-> c[2], cls |-> "distinct-inputs-equal-images"],
